@@ -729,6 +729,16 @@ func (sf *statFile) updateStatUnlocked() ([]byte, error) {
 	return j, nil
 }
 
+// modTime returns the modification time to report for an entry. The TOC omits
+// the modification time when it is zero (the epoch), which leaves ModTime as the
+// zero time.Time, whose Unix time is negative and wraps around in fuse.Attr.
+func modTime(e metadata.Attr) time.Time {
+	if e.ModTime.IsZero() {
+		return time.Unix(0, 0)
+	}
+	return e.ModTime
+}
+
 // entryToAttr converts metadata.Attr to go-fuse's Attr.
 func entryToAttr(ino uint64, e metadata.Attr, out *fuse.Attr) fusefs.StableAttr {
 	out.Ino = ino
@@ -738,7 +748,7 @@ func entryToAttr(ino uint64, e metadata.Attr, out *fuse.Attr) fusefs.StableAttr 
 	}
 	out.Blksize = blockSize
 	out.Blocks = (out.Size + uint64(out.Blksize) - 1) / uint64(out.Blksize) * physicalBlockRatio
-	mtime := e.ModTime
+	mtime := modTime(e)
 	out.SetTimes(nil, &mtime, nil)
 	out.Mode = fileModeToSystemMode(e.Mode)
 	out.Owner = fuse.Owner{Uid: uint32(e.UID), Gid: uint32(e.GID)}
@@ -764,7 +774,7 @@ func entryToWhAttr(ino uint64, e metadata.Attr, out *fuse.Attr) fusefs.StableAtt
 	out.Size = 0
 	out.Blksize = blockSize
 	out.Blocks = 0
-	mtime := e.ModTime
+	mtime := modTime(e)
 	out.SetTimes(nil, &mtime, nil)
 	out.Mode = syscall.S_IFCHR
 	out.Owner = fuse.Owner{Uid: 0, Gid: 0}
